@@ -15,6 +15,7 @@ class Built:
         self.records = []           # (scope index, record object, model record) in creation order
         self.stats = Counter()
         self.no_exclude = False
+        self.ns_pool = {}           # (prefix, uri) -> caller-owned Namespace object, reused like a module-level constant
         self.requested = [set()]    # per scope: prefixes this scope was asked to bind (explicitly or through a
                                     # QualifiedName object resolved in it); such a prefix shadows the document's
 
@@ -126,7 +127,8 @@ def spell(b, si, name, inherit=True):
                 b.stats["spell:uri-inherited"] += 1
             return full
     b.stats["spell:qn"] += 1
-    return b.note_qn(si, QualifiedName(Namespace(name["prefix"], ns), local))
+    nsobj = b.ns_pool.setdefault((name["prefix"], ns), Namespace(name["prefix"], ns))
+    return b.note_qn(si, nsobj[local])
 
 
 def pyvalue(b, si, v):
@@ -201,7 +203,13 @@ def apply_op(b, op, inherit=True):
     if code == "ns":
         si = op[1] % len(b.scopes)
         b.requested[si].add(op[2])
-        b.scopes[si].add_namespace(op[2], op[3])
+        if (len(op[2]) + len(op[3])) % 2:
+            # the same caller-owned Namespace object that also mints names elsewhere in the recipe
+            from prov.identifier import Namespace
+            b.scopes[si].add_namespace(b.ns_pool.setdefault((op[2], op[3]), Namespace(op[2], op[3])))
+            b.stats["op:ns-object"] += 1
+        else:
+            b.scopes[si].add_namespace(op[2], op[3])
         b.stats["op:ns"] += 1
     elif code == "default":
         si = op[1] % len(b.scopes)
